@@ -3,8 +3,8 @@
 #   tools/check_seeded.sh <patch.diff> <Cnn> [Cnn ...]
 set -u
 PATCH="$1"; shift
-WT=/tmp/seedchk/wt; OUT=/tmp/seedchk/out
-mkdir -p /tmp/seedchk
+D=${SEEDCHK:-/tmp/seedchk}; WT=$D/wt; OUT=$D/out
+mkdir -p $D
 [ -d $WT ] || git -C /repo worktree add -q --detach $WT HEAD
 git -C $WT checkout -q --detach "$(git -C /repo rev-parse HEAD)"; git -C $WT checkout -- .
 git -C $WT apply "$PATCH" || { echo "PATCH DOES NOT APPLY"; exit 3; }
